@@ -7,6 +7,9 @@ CONSTANTS
   CrashOn = TRUE
   PowerLossOn = TRUE
   DirSyncOnRemove = TRUE
+  Groups = 1
+  GroupSize = 2
+  TombSyncs = TRUE
   MaxIno = 6
 INVARIANTS AckedSurvive NoDuplicatesOutsideWindow NoDuplicatesAfterMergeReturned AckedNeverTorn ScanExact NeverExposed AbortLeavesNothing
 PROPERTIES NoClobber
